@@ -260,7 +260,7 @@ func TestC14(t *testing.T) {
 	hx.Check[c14Case]{
 		Property: "C14", Part: "scripts",
 		Rule:  "emit scripts: 0-5 segments on stdout/stderr with sizes from {0,1,4095,4096,65535,65536,65537,70000,131072,200000,1MiB,4MiB} or random, optional early close of a stream, sleeps, then exit 0..255 / self-signal / fall off the end; called through RunCommand and InTotoRun (by-products, both wrappers) in an isolated worker process, with and without a run directory; plus missing executable, empty argv, non-executable file, directory; non-trivial = >64KiB on one stream while both are open, or a broken command; distinct by (script, call path)",
-		Cases: hx.Pick(400, 6000),
+		Cases: hx.Pick(400, 30000),
 		Gen:   c14Gen, Run: c14Run,
 	}.Execute(t)
 }
